@@ -107,6 +107,8 @@ public:
         :_ptr(std::make_shared<future_internal>()) {
         _ptr->result_of(std::forward<Fn>(fn));
         if (_ptr->pending()) _ptr->resolve_tracer.charge(_ptr);
+        //already resolved, possibly by another thread while fn() was running: synchronize with the resolver
+        else std::atomic_thread_fence(std::memory_order_acquire);
     }
 
 
